@@ -834,6 +834,9 @@ impl Engine for C13 {
     fn chunk(&self) -> u64 {
         50
     }
+    fn evaluations_counter(&self) -> Option<&'static str> {
+        Some("calls")
+    }
     fn run_timeout(&self) -> std::time::Duration {
         std::time::Duration::from_secs(30)
     }
@@ -1087,7 +1090,7 @@ impl Engine for C13 {
     }
 
     fn rule(&self) -> String {
-        "a case is one rewrite call (to_config -> rewrite_js -> print_js -> get_metrics) under catch_unwind with a simulated reader; 'single' runs draw (configuration, process log level, file-name shape, source kind, reference kind, map body class, multi-fault schedule incl. the i-th open failing); every 25th run is a sweep that re-executes one call once per single-fault point of its fault-free execution: (read index x 7 error kinds + EOF), (byte position x {truncate, bit flip}), every open error, every parent() mode. evaluations counts runs; counters.calls counts rewrite calls. distinct = hash of (tags, fault kinds with head/body/tail position bucket, parent mode, chunk, fired fault set, outcome class); non-trivial = at least one injected fault or a non-valid source".into()
+        "a case is one rewrite call (to_config -> rewrite_js -> print_js -> get_metrics) under catch_unwind with a simulated reader; 'single' runs draw (configuration, process log level, file-name shape, source kind, reference kind, map body class, multi-fault schedule incl. the i-th open failing); every 25th run is a sweep that re-executes one call once per single-fault point of its fault-free execution: (read index x 7 error kinds + EOF), (byte position x {truncate, bit flip}), every open error, every parent() mode. evaluations counts rewrite calls (runs is the number of runs; a sweep run holds ~1 500 calls). distinct = hash of (tags, fault kinds with head/body/tail position bucket, parent mode, chunk, fired fault set, outcome class); non-trivial = at least one injected fault or a non-valid source".into()
     }
 
     fn components(&self) -> Value {
